@@ -138,6 +138,19 @@ def dump (w : World) : Array String := Id.run do
     o := o.push (wsumStr "oq" i (w.oqs[i]?.map (·.hist)).get!)
   for i in [0:w.pqs.size] do
     o := o.push (wsumStr "pq" i (w.pqs[i]?.map (·.hist)).get!)
+  -- second life: what every object must report after terminate + initialize (the driver ends the run first);
+  -- not after a capped run
+  if w.log.contains "cap" then return o
+  for i in [0:w.res.size] do
+    o := o.push s!"Z res {i} inuse=0 hist=0"
+  for i in [0:w.pools.size] do
+    o := o.push s!"Z pool {i} inuse=0 avail={(w.pools[i]?.map (·.cap)).getD 0} hist=0"
+  for i in [0:w.bufs.size] do
+    o := o.push s!"Z buf {i} level=0 space={(w.bufs[i]?.map (·.cap)).getD 0} hist=0"
+  for i in [0:w.oqs.size] do
+    o := o.push s!"Z oq {i} len=0 hist=0"
+  for i in [0:w.pqs.size] do
+    o := o.push s!"Z pq {i} len=0 hist=0"
   return o
 
 def main : IO Unit := do
